@@ -32,6 +32,7 @@
 #include <upipe/upipe.h>
 #include <upipe-ts/uref_ts_flow.h>
 #include <upipe-ts/upipe_ts_decaps.h>
+#include <upipe-ts/upipe_ts_split.h>
 #include <upipe-ts/upipe_ts_pes_decaps.h>
 #include <upipe-ts/upipe_ts_pes_encaps.h>
 #include <upipe-ts/upipe_ts_encaps.h>
@@ -55,6 +56,7 @@ enum {
     V_OUT_OF_NOTHING,       /* more octets out than payload octets in */
     V_PES_HEADER,           /* the PES packet written by pes_encaps is not what the standard lays out */
     V_TS_PACKET,            /* a packet written by ts_encaps is not what the standard lays out */
+    V_PID_ROUTING,          /* ts_split sent a packet to the wrong output / not to the right one */
 };
 
 static const char *class_name(int cls)
@@ -72,6 +74,7 @@ static const char *class_name(int cls)
     case V_OUT_OF_NOTHING: return "out_of_nothing";
     case V_PES_HEADER: return "pes_header";
     case V_TS_PACKET: return "ts_packet";
+    case V_PID_ROUTING: return "pid_routing";
     default: return NULL;
     }
 }
@@ -90,7 +93,7 @@ static const char *op_name(int code)
 }
 
 enum { CFG_PROP = 0, CFG_KIND, CFG_POOL, CFG_RELEASE_AT, CFG_FAULTS, CFG_UMEM_OFF, CFG_PID, CFG_CC0, CFG_PES_ID, CFG_PES_HEADER,
-       CFG_ALIGN, CFG_PCR_INTERVAL, CFG_OCTETRATE, CFG_MUX_STEP };
+       CFG_ALIGN, CFG_PCR_INTERVAL, CFG_OCTETRATE, CFG_MUX_STEP, CFG_SPLIT };
 enum { K_DECAPS = 0, K_ROUNDTRIP, K_TSENCAPS, K__N };
 
 #define MAXAU 12
@@ -346,6 +349,7 @@ static struct urefcount probe_refcount;
 static unsigned ev_ready, ev_dead;
 
 static void noop_free(struct urefcount *r) { (void)r; }
+static void noise_free_cb(struct urefcount *r) { (void)r; }
 static struct { uint64_t cr_sys, dts_sys, pcr_sys; bool ready; unsigned n; } enc_status;
 
 static int catch(struct uprobe *uprobe, struct upipe *upipe, int event, va_list args)
@@ -432,6 +436,26 @@ static int sink_control(struct upipe *upipe, int command, va_list args)
 
 static struct upipe_mgr sink_mgr = {
     .refcount = NULL, .signature = 0, .upipe_input = sink_input, .upipe_control = sink_control,
+};
+
+/* second output of ts_split: packets of the other PID */
+static struct upipe noise_sink;
+static struct urefcount noise_sink_refcount;
+static unsigned noise_got, noise_bad;
+static unsigned noise_pid;
+static void noise_input(struct upipe *upipe, struct uref *uref, struct upump **upump_p)
+{
+    uint8_t h[4];
+    size_t size = 0;
+    uref_block_size(uref, &size);
+    if (size != 188 || !ubase_check(uref_block_extract(uref, 0, 4, h)) ||
+        (unsigned)(((h[1] & 0x1f) << 8) | h[2]) != noise_pid)
+        noise_bad++;
+    noise_got++;
+    uref_free(uref);
+}
+static struct upipe_mgr noise_mgr = {
+    .refcount = NULL, .signature = 0, .upipe_input = noise_input, .upipe_control = sink_control,
 };
 
 /* ------------------------------------------------------------ environment */
@@ -1039,6 +1063,12 @@ static void run_decaps(int kind)
         channel_from_ops();
     ev_ready = ev_dead = 0;
 
+    unsigned pid = 32 + (unsigned)((uint64_t)plan->cfg[CFG_PID] % 8000);
+    int split_mode = (int)((uint64_t)plan->cfg[CFG_SPLIT] % 3);   /* 0 none, 1 split, 2 split + second output */
+    struct upipe *split = NULL, *sub = NULL, *sub2 = NULL;
+    unsigned expect_pipes = 2, noise_sent = 0;
+    noise_got = noise_bad = 0;
+    noise_pid = ((uint64_t)plan->cfg[CFG_SPLIT] & 4) ? 0x1fff : pid ^ 1;
     struct upipe_mgr *mgr = upipe_ts_decaps_mgr_alloc();
     struct upipe *decaps = upipe_void_alloc(mgr, uprobe_use(&probe));
     upipe_mgr_release(mgr);
@@ -1056,6 +1086,37 @@ static void run_decaps(int kind)
     uref_free(fd);
     if (!ubase_check(err))
         sim_violation(V_CONTROL, "ts_decaps refuses block.mpegts.mpegtspes. (%d)", err);
+    if (split_mode && checking()) {
+        /* the PID demultiplexer in front: packets of other PIDs are mixed in */
+        mgr = upipe_ts_split_mgr_alloc();
+        split = upipe_void_alloc(mgr, uprobe_use(&probe));
+        upipe_mgr_release(mgr);
+        struct uref *sfd = uref_block_flow_alloc_def(uref_mgr, "mpegts.");
+        if (split == NULL || sfd == NULL || !ubase_check(upipe_set_flow_def(split, sfd)))
+            sim_violation(V_CONTROL, "ts_split allocation / flow definition failed");
+        uref_free(sfd);
+        sfd = uref_block_flow_alloc_def(uref_mgr, "mpegts.mpegtspes.");
+        if (sfd != NULL && split != NULL) {
+            uref_ts_flow_set_pid(sfd, pid);
+            sub = upipe_flow_alloc_sub(split, uprobe_use(&probe), sfd);
+            if (sub == NULL || !ubase_check(upipe_set_output(sub, decaps)))
+                sim_violation(V_CONTROL, "ts_split output for PID %u failed", pid);
+            expect_pipes += 2;
+            if (split_mode == 2) {
+                uref_ts_flow_set_pid(sfd, noise_pid);
+                upipe_init(&noise_sink, &noise_mgr, uprobe_use(&probe));
+                urefcount_init(&noise_sink_refcount, noise_free_cb);
+                noise_sink.refcount = &noise_sink_refcount;
+                sub2 = upipe_flow_alloc_sub(split, uprobe_use(&probe), sfd);
+                if (sub2 == NULL || !ubase_check(upipe_set_output(sub2, &noise_sink)))
+                    sim_violation(V_CONTROL, "ts_split output for PID %u failed", noise_pid);
+                expect_pipes++;
+            }
+        }
+        uref_free(sfd);
+        SIM_PROBE("ts_split_in_front");
+    }
+    struct upipe *head = split != NULL ? split : decaps;
 
     bool any_lost = false, any_corrupt = false;
     int release_at = plan->cfg[CFG_RELEASE_AT] > 0 ? (int)((uint64_t)plan->cfg[CFG_RELEASE_AT] % (uint64_t)(npkt + 1)) : npkt;
@@ -1111,10 +1172,29 @@ static void run_decaps(int kind)
             payload_octets_in += (unsigned)p->payload_len;
         else if (p->corrupt)
             payload_octets_in += 184;
+        if (split != NULL && ((p->segsel >> 7) & 3) == 0) {
+            /* a packet of another PID in between */
+            uint8_t nz[188];
+            for (int k = 0; k < 188; k++)
+                nz[k] = (uint8_t)(p->segsel * 31 + (uint64_t)k * 7);
+            nz[0] = 0x47;
+            nz[1] = (uint8_t)((nz[1] & 0xe0) | ((noise_pid >> 8) & 0x1f));
+            nz[2] = (uint8_t)noise_pid;
+            struct uref *nu = make_buffer(nz, 188, p->segsel >> 9);
+            if (nu != NULL) {
+                noise_sent++;
+                upipe_input(head, nu, NULL);
+            }
+        }
+        if (split != NULL && p->corrupt) {
+            /* keep the damage away from the PID: routing is not what a corrupt packet tests here */
+            d[1] = (uint8_t)((d[1] & 0xe0) | ((pid >> 8) & 0x1f));
+            d[2] = (uint8_t)pid;
+        }
         sim_ev("packet", (uint64_t)i, (uint64_t)p->pusi | (uint64_t)p->dup << 1 | (uint64_t)p->af_only << 2 | (uint64_t)p->corrupt << 3);
         if (p->fault && ((uint64_t)plan->cfg[CFG_FAULTS] & 1))
             sim_alloc_arm(p->fault);
-        upipe_input(decaps, uref, NULL);
+        upipe_input(head, uref, NULL);
         if (sim_alloc_disarm() == 0 && p->fault && ((uint64_t)plan->cfg[CFG_FAULTS] & 1)) {
             fault_fired = true;
             SIM_PROBE("fault_alloc_in_input");
@@ -1122,9 +1202,25 @@ static void run_decaps(int kind)
     }
     if (release_at < npkt)
         SIM_PROBE("ts_released_in_mid_stream");
+    /* teardown in one of two orders */
+    if (split != NULL && ((uint64_t)plan->cfg[CFG_SPLIT] & 8)) {
+        upipe_release(split);
+        split = NULL;
+    }
+    upipe_release(sub);
+    upipe_release(sub2);
+    upipe_release(split);
     upipe_release(decaps);
-    if (checking() && (ev_ready != 2 || ev_dead != 2))
-        sim_violation(V_LIFECYCLE, "2 pipes allocated, %u ready and %u dead events", ev_ready, ev_dead);
+    if (split_mode == 2) {
+        if (checking() && !urefcount_single(&noise_sink_refcount))
+            sim_violation(V_LEAK, "the second sink behind ts_split is still referenced");
+        upipe_clean(&noise_sink);
+    }
+    if (checking() && (ev_ready != expect_pipes || ev_dead != expect_pipes))
+        sim_violation(V_LIFECYCLE, "%u pipes allocated, %u ready and %u dead events", expect_pipes, ev_ready, ev_dead);
+    if (checking() && !fault_fired && split_mode == 2 && (noise_got != noise_sent || noise_bad))
+        sim_violation(V_PID_ROUTING, "%u packets of PID %u went into ts_split, its output for that PID received %u (%u of them "
+                      "not of that PID)", noise_sent, noise_pid, noise_got, noise_bad);
     if (!checking() || fault_fired || out_overflow)
         return;
     if ((unsigned)outpos > payload_octets_in) {
@@ -1271,6 +1367,7 @@ static void gen(const char *pr, struct sim_rng *r, struct sim_plan *p)
     p->cfg[CFG_PCR_INTERVAL] = sim_rng_below(r, 4000000);
     p->cfg[CFG_OCTETRATE] = sim_rng_below(r, 2000000);
     p->cfg[CFG_MUX_STEP] = sim_rng_below(r, 40000);
+    p->cfg[CFG_SPLIT] = sim_rng_chance(r, 1, 2) ? sim_rng_below(r, 48) : 0;
     p->cfg[CFG_PES_ID] = sim_rng_below(r, 5);
     p->cfg[CFG_PES_HEADER] = sim_rng_below(r, 96);
     p->cfg[CFG_POOL] = sim_rng_below(r, 4);
